@@ -399,6 +399,10 @@ class Interp:
             if m is not None:
                 return self.truth(self.call_function(FuncVal(m, self_val=b), [a], {}))
             return a is b
+        ta = isinstance(a, Opaque) and a.tag == "text"
+        tb = isinstance(b, Opaque) and b.tag == "text"
+        if ta or tb:
+            return self.text_eq(a, b)
         if isinstance(a, Opaque) or isinstance(b, Opaque):
             if isinstance(a, Opaque) and "__eq__" in a.methods:
                 return a.methods["__eq__"](self, b)
@@ -411,6 +415,66 @@ class Interp:
             return a == b
         except Exception:
             return a is b
+
+    def text_eq(self, a, b):
+        """Equality of symbolic texts (literal pieces and decimal renderings of symbolic ints, see make_text).
+        Two texts of the SAME shape are equal iff their integer parts are equal (str(int) is injective and the
+        literal separators contain no digits / signs where it matters); a concrete string is parsed against the
+        shape.  Shapes that cannot be compared this way are refused (Unsupported), never answered 'different'."""
+        import re
+
+        def parts_of(x):
+            if isinstance(x, Opaque) and x.tag == "text":
+                return list(x.attrs["parts"])
+            if isinstance(x, Opaque) and x.tag == "str(int)":
+                return [("int", x.attrs["int"])]
+            if isinstance(x, str):
+                return [x] if x else []
+            return None
+
+        pa, pb = parts_of(a), parts_of(b)
+        if pa is None or pb is None:
+            return a is b
+        if a is b:
+            return True
+
+        def shape(ps):
+            return [p if isinstance(p, str) else p[0] for p in ps]
+
+        if len(pa) == len(pb) and all((isinstance(x, str) and isinstance(y, str)) or
+                                      (not isinstance(x, str) and not isinstance(y, str) and x[0] == y[0])
+                                      for x, y in zip(pa, pb)):
+            conds = []
+            for x, y in zip(pa, pb):
+                if isinstance(x, str):
+                    if x != y:
+                        return False
+                elif x[0] == "int":
+                    conds.append(_as_int(x[1]) == _as_int(y[1]))
+                else:  # atom: uninterpreted strings, compared by identity
+                    if x[1] is not y[1]:
+                        raise Unsupported("equality of texts with distinct uninterpreted pieces")
+            conds = [c for c in conds if c is not True]
+            if any(c is False for c in conds):
+                return False
+            return _and(conds) if conds else True
+        # a concrete string against a shape: match the literals, parse the integers
+        conc, sym = (pa, pb) if all(isinstance(p, str) for p in pa) else (pb, pa) if all(isinstance(p, str) for p in pb) else (None, None)
+        if conc is not None and all(isinstance(p, str) or p[0] == "int" for p in sym):
+            text = "".join(conc)
+            rx = "^" + "".join(re.escape(p) if isinstance(p, str) else r"(-?\d+)" for p in sym) + "$"
+            m = re.match(rx, text)
+            if not m:
+                return False
+            ints = [p[1] for p in sym if not isinstance(p, str)]
+            conds = [_as_int(v) == int(g) for v, g in zip(ints, m.groups())]
+            return _and(conds) if conds else True
+        # decisively different literal heads
+        ha = pa[0] if pa and isinstance(pa[0], str) else ""
+        hb = pb[0] if pb and isinstance(pb[0], str) else ""
+        if ha and hb and not (ha.startswith(hb) or hb.startswith(ha)):
+            return False
+        raise Unsupported(f"equality of symbolic texts of different shapes: {shape(pa)} vs {shape(pb)}")
 
     def sym_is(self, a, b):
         a = self.resolve(a)
